@@ -20,10 +20,18 @@
 #endif
 
 typedef struct { int n, K; } prog_t;
-static const prog_t P[2][3] = { { { 7, 1 }, { 12, 0 }, { 14, 1 } }, { { 7, 2 }, { 14, 1 }, { 22, 1 } } };
-static int nprogs(int tier) { (void)tier; return 3; }
+/* programs 0-2: single wake-ups in pairs; programs 3-4 (condition variable and barrier only): a burst - one call releases n sleepers at
+   once, so that the re-centring of the 8-entry queue happens with several woken threads queued while the other worker takes from it */
+static const prog_t P[2][5] = { { { 7, 1 }, { 12, 0 }, { 14, 1 }, { 5, BND_PROP == 5 ? 1 : 2 }, { 6, 1 } }, { { 7, 2 }, { 14, 1 }, { 22, 1 }, { 5, 2 }, { 6, 2 } } };
+#if BND_PROP == 5 || BND_PROP == 6
+#define NPROGS 5
+#else
+#define NPROGS 3
+#endif
+static int nprogs(int tier) { (void)tier; return NPROGS; }
 static void config(int tier, int prog, int * W, int * K) { *W = 2; *K = P[tier][prog].K; }
 static void describe(int tier, int prog, char * b, size_t n) {
+  if (prog >= 3) { snprintf(b, n, "burst: one %s releases %d sleepers at once, 3 rounds, 8-entry run queue", BND_PROP == 5 ? "broadcast" : "barrier arrival", P[tier][prog].n); return; }
   snprintf(b, n, "waker keeps its worker; %d wake-ups (one waiter thread each) across the boundary of an 8-entry run queue", P[tier][prog].n);
 }
 
@@ -93,10 +101,55 @@ static void * waker(void * a) {
   }
   return (void *)2;
 }
+#if BND_PROP == 5 || BND_PROP == 6
+/* burst programs */
+static volatile int b_round, b_waiting, b_passed[4], b_serial[4];
+static myth_mutex_t bm; static myth_cond_t bc; static myth_barrier_t bb;
+static void * burst_waiter(void * a) {
+  (void)a;
+  for (int r = 1; r <= 3; r++) {
+#if BND_PROP == 5
+    myth_mutex_lock(&bm); b_waiting++; while (b_round < r) myth_cond_wait(&bc, &bm); b_passed[r]++; myth_mutex_unlock(&bm);
+#else
+    int s = myth_barrier_wait(&bb);
+    MV_CHECK(s == 0 || s == MYTH_BARRIER_SERIAL_THREAD, "barrier_wait returned %d", s);
+    mv_point(&b_passed[r], sizeof(int)); __sync_fetch_and_add(&b_passed[r], 1); if (s) __sync_fetch_and_add(&b_serial[r], 1);
+#endif
+  }
+  return (void *)7;
+}
+static void run_burst(int n) {
+  myth_thread_t tt[8];
+  myth_mutex_init(&bm, 0); myth_cond_init(&bc, 0); myth_barrier_init(&bb, 0, n + 1);
+  for (int i = 0; i < n; i++) tt[i] = myth_create(burst_waiter, 0);
+  for (int r = 1; r <= 3; r++) {
+#if BND_PROP == 5
+    for (;;) { myth_mutex_lock(&bm); int w = b_waiting; myth_mutex_unlock(&bm); if (w >= n * r) break; myth_yield(); }   /* everybody waits for round r */
+    myth_mutex_lock(&bm); b_round = r; myth_cond_broadcast(&bc); myth_mutex_unlock(&bm);
+#else
+    int s = myth_barrier_wait(&bb);
+    mv_point(&b_passed[r], sizeof(int)); __sync_fetch_and_add(&b_passed[r], 1); if (s) __sync_fetch_and_add(&b_serial[r], 1);
+#endif
+  }
+  for (int i = 0; i < n; i++) { void * rr = 0; myth_join(tt[i], &rr); MV_CHECK(rr == (void *)7, "a released thread ended with %p (run twice, or resumed in the place of another?)", rr); }
+  for (int r = 1; r <= 3; r++) {
+#if BND_PROP == 5
+    MV_CHECK(b_passed[r] == n, "round %d: %d of %d waiters passed after the broadcast", r, b_passed[r], n);
+#else
+    MV_CHECK(b_passed[r] == n + 1 && b_serial[r] == 1, "round %d: %d of %d participants returned, %d of them as the serial thread", r, b_passed[r], n + 1, b_serial[r]);
+#endif
+  }
+  mv_obs("burst n=%d main on w%d", n, mv_worker());
+  mv_finish();
+}
+#endif
 static void run(int tier, int prog) {
   cur = &P[tier][prog];
   int n = cur->n;
   mv_start(2);
+#if BND_PROP == 5 || BND_PROP == 6
+  if (prog >= 3) { run_burst(n); return; }
+#endif
   for (int r = 0; r <= n; r++) { myth_mutex_init(&m[r], 0); myth_cond_init(&cv[r], 0); myth_barrier_init(&bar[r], 0, 2); myth_uncond_init(&un[r]); myth_felock_init(&fe[r], 0); }
   myth_thread_t tw = myth_create(waker, 0), tt[MAXN + 1];
   while (!setup_done) mv_wait_until_changed(&setup_done, sizeof setup_done);
